@@ -15,6 +15,9 @@ From Ztyp Require Import BitfieldsProofs.
 From Ztyp Require Import Base Bitlen Bitfields Merkleize Types Spec BitlenProofs MerkleProofs.
 From Coq Require Import PeanoNat ZArith ZifyN ZifyNat ZifyBool.
 Notation lenN := Spec.lenN.
+(* parts A-C use plain linear arithmetic (div/mod terms are atoms); part D switches the
+   div/mod preprocessing of lia on *)
+Ltac Zify.zify_post_hook ::= idtac.
 Open Scope N_scope.
 
 Local Opaque two64.
